@@ -280,6 +280,33 @@ theorem sstep_reachable {d d' : DState} {st : SStep} {ev : String} (h : Reachabl
             simp [ha] at hs
             obtain ⟨hd, _⟩ := hs; subst hd
             exact advance_reachable (d := { d with s := s1 }) hr1 ha
+  | newReqWs =>
+    simp only [sstep] at hs
+    split at hs
+    · simp at hs
+    next c =>
+      split at hs
+      · simp at hs
+      next s1 h1 =>
+        have hr1 := Reachable.step _ h h1
+        split at hs
+        · exact advanceAny_reachable (d := { d with s := s1, wsReqs := d.s.reqs.length :: d.wsReqs }) hr1 hs
+        · cases ha : advance fuel0 { d with s := s1 } d.s.reqs.length with
+          | none => simp [ha] at hs
+          | some x =>
+            simp [ha] at hs
+            obtain ⟨hd, _⟩ := hs; subst hd
+            exact advance_reachable (d := { d with s := s1 }) hr1 ha
+  | wsBegin r =>
+    simp only [sstep] at hs
+    split at hs
+    · split at hs
+      · simp at hs
+      next q hq =>
+        split at hs
+        · simp at hs
+        next s1 h1 => simp at hs; obtain ⟨hd, _⟩ := hs; subst hd; exact strikesN_reachable h h1
+    · simp at hs
   | streamBegin r =>
     simp only [sstep] at hs
     split at hs
@@ -371,12 +398,20 @@ theorem sstep_reachable {d d' : DState} {st : SStep} {ev : String} (h : Reachabl
     · split at hs
       · split at hs
         · simp at hs
-        next s1 h1 => exact continueOrRetDyn_reachable (endAttempt_reachable h h1) hs
+        next s1 h1 =>
+          have hr1 := endAttempt_reachable h h1
+          split at hs
+          · exact continueOrRetDyn_reachable (d := { d with streaming := d.streaming.filter (· != r) }) hr1 hs
+          · simp at hs; obtain ⟨hd, _⟩ := hs; subst hd; exact hr1
       · split at hs
-        · cases he : endAttempt d.s r .clientAbort with
-          | none => simp [he] at hs
-          | some s1 => simp [he] at hs; obtain ⟨hd, _⟩ := hs; subst hd; exact endAttempt_reachable h he
-        · simp at hs
+        · split at hs
+          · simp at hs
+          next s1 h1 => exact continueOrRetDyn_reachable (endAttempt_reachable h h1) hs
+        · split at hs
+          · cases he : endAttempt d.s r .clientAbort with
+            | none => simp [he] at hs
+            | some s1 => simp [he] at hs; obtain ⟨hd, _⟩ := hs; subst hd; exact endAttempt_reachable h he
+          · simp at hs
   | bdown k =>
     simp only [sstep] at hs
     split at hs
